@@ -34,9 +34,11 @@ enum Ev {
     Uncached,
     /// one signal carrying both a change and an invalidation of another cached property
     SetQInvalidateP,
+    /// a change of a property R that the GetAll snapshot does not list
+    SetR,
 }
 
-const UPDATES: [Ev; 6] = [Ev::Set1, Ev::Set2, Ev::Invalidate, Ev::OtherIface, Ev::Uncached, Ev::SetQInvalidateP];
+const UPDATES: [Ev; 7] = [Ev::Set1, Ev::Set2, Ev::Invalidate, Ev::OtherIface, Ev::Uncached, Ev::SetQInvalidateP, Ev::SetR];
 
 fn changed_signal(iface: &str, changed: Vec<(&str, Value<'_>)>, invalidated: Vec<&str>) -> Message {
     let map: HashMap<&str, Value<'_>> = changed.into_iter().collect();
@@ -53,6 +55,7 @@ struct ModelState {
     ready: bool,
     p: Option<u32>,
     q: Option<String>,
+    r: Option<u32>,
 }
 
 fn scenario(updates: &[Ev]) -> ExecResult {
@@ -94,7 +97,7 @@ fn scenario(updates: &[Ev]) -> ExecResult {
     let mut remaining: Vec<Ev> = updates.to_vec();
     let mut getall_serial: Option<u32> = None;
     let mut getall_replied = false;
-    let mut model = ModelState { ready: false, p: None, q: None };
+    let mut model = ModelState { ready: false, p: None, q: None, r: None };
     let mut order: Vec<Ev> = vec![];
     loop {
         if getall_serial.is_none() {
@@ -155,6 +158,12 @@ fn scenario(updates: &[Ev]) -> ExecResult {
                     }
                     Ev::OtherIface => changed_signal("c.d.Other", vec![("P", Value::from(9u32))], vec!["P"]),
                     Ev::Uncached => changed_signal("a.b.I", vec![("U", Value::from(7u32))], vec![]),
+                    Ev::SetR => {
+                        if model.ready {
+                            model.r = Some(3);
+                        }
+                        changed_signal("a.b.I", vec![("R", Value::from(3u32))], vec![])
+                    }
                     Ev::SetQInvalidateP => {
                         if model.ready {
                             model.q = Some("q1".into());
@@ -191,7 +200,14 @@ fn scenario(updates: &[Ev]) -> ExecResult {
                 let p = proxy.cached_property::<u32>("P").ok().flatten();
                 let q = proxy.cached_property::<String>("Q").ok().flatten();
                 let u = proxy.cached_property::<u32>("U").ok().flatten();
-                w.obs(format!("cached P={p:?} Q={q:?} U={u:?}; model {model:?}"));
+                let r = proxy.cached_property::<u32>("R").ok().flatten();
+                w.obs(format!("cached P={p:?} Q={q:?} U={u:?} R={r:?}; model {model:?}"));
+                if r != model.r {
+                    res.violations.push(
+                        v("cached-value-equals-history", format!("receive order {order:?}: cached R = {r:?} (R is not in the GetAll snapshot), the received history implies {:?}", model.r))
+                            .feat("kind", "R"),
+                    );
+                }
                 if p != model.p {
                     res.violations.push(
                         v("cached-value-equals-history", format!("receive order {order:?}: cached P = {p:?}, the received history implies {:?}", model.p))
